@@ -45,7 +45,7 @@ def regenerate():
         st['py2lean'] = 'error: ' + out[-400:]
     # what changed w.r.t. the committed baseline (informational, directs the failing-input search)
     rc, out = sh(['git', '-C', ROOT, 'diff', '--stat', '--', 'lean/H2/Gen'])
-    st['gen_changed_vs_committed'] = bool(out.strip())
+    st['gen_changed_vs_committed'] = bool(out.strip()) if rc == 0 else None   # None: not a git checkout
     return st
 
 
